@@ -1241,15 +1241,8 @@ def emitKeyNew (cfg : Cfg) (st : St) : Out St := do
       if st.term.freed then .ub .mem "terminal freed while its bindings are being run"
       else pure { st with termIter := false }
 
-/-- `on_term_mouse` through `tickit_term_emit_mouse`. -/
-def emitMouseNew (cfg : Cfg) (st : St) (info : Mouse) : Out St := do
-  if st.term.freed then .ub .mem "emit on freed terminal" else
-  match st.tree.wins[0]? with
-  | none => pure st
-  | some r =>
-    if r.freed then pure st
-    else do
-      let st := { st with termIter := true }
+/-- The body of `on_term_mouse` (the root window is alive): the state after it and its result `!!handled`. -/
+def onTermMouse (cfg : Cfg) (st : St) (info : Mouse) : Out (St × Bool) := do
       let fuel := routeFuel st
       let st ← if cfg.mouseKeepsRoot then refW st 0 else pure st
       let root (st : St) := st.tree.root
@@ -1298,6 +1291,18 @@ def emitMouseNew (cfg : Cfg) (st : St) (info : Mouse) : Out St := do
         else pure st
       let st ← unrefOpt cfg st handled
       let st ← if cfg.mouseKeepsRoot then unrefW cfg st 0 else pure st
+      pure (st, handled.isSome)
+
+/-- `on_term_mouse` through `tickit_term_emit_mouse`. -/
+def emitMouseNew (cfg : Cfg) (st : St) (info : Mouse) : Out St := do
+  if st.term.freed then .ub .mem "emit on freed terminal" else
+  match st.tree.wins[0]? with
+  | none => pure st
+  | some r =>
+    if r.freed then pure st
+    else do
+      let st := { st with termIter := true }
+      let (st, _) ← onTermMouse cfg st info
       if st.term.freed then .ub .mem "terminal freed while its bindings are being run"
       else pure { st with termIter := false }
 
